@@ -81,6 +81,7 @@ type c13Link struct {
 	fail     bool // transport down: WriteMessage returns an error, nothing leaves
 	failed   int  // writes refused while fail was set
 	lastDrop []byte
+	nest     []byte // the last datagram for /nest that was passed on (opNest feeds a copy of it)
 	dst      *c13Side
 	stop     bool
 }
@@ -119,6 +120,9 @@ func (l *c13Link) send(d []byte) {
 	}
 	if l.passLeft > 0 {
 		l.passLeft--
+	}
+	if !w.Bad && c13PathOf(w) == "nest" {
+		l.nest = d
 	}
 	l.q = append(l.q, d)
 	l.enq++
@@ -351,6 +355,21 @@ func (s *c13Side) mutexHasKey(mid int32) bool {
 
 func c13MapLen(v reflect.Value) int { return v.Len() }
 
+// midHasNil reports whether midHandlerContainer holds a nil element under some message ID.
+func (s *c13Side) midHasNil() bool {
+	mpw := reflect.ValueOf(s.cc).Elem().FieldByName("midHandlerContainer").Elem()
+	r := false
+	lockSyncMap(mpw, func() {
+		it := mpw.FieldByName("data").MapRange()
+		for it.Next() {
+			if it.Value().IsNil() {
+				r = true
+			}
+		}
+	})
+	return r
+}
+
 // sizes reads every per-exchange table of the connection.
 func (s *c13Side) sizes() [c13NSizes]int {
 	var r [c13NSizes]int
@@ -453,6 +472,11 @@ type c13Run struct {
 	d0, e0 int
 	// the closing ticks run with the transport down (writes fail) instead of a silent network
 	downAtClose bool
+	// opNest (c13race.go): B's handler announces itself on nestIn and stays busy until nestRelease is
+	// closed; contMid = message IDs whose two copies contended for the per-ID lock (reported as EInCont)
+	nestIn      chan struct{}
+	nestRelease chan struct{}
+	contMid     map[int]bool
 }
 
 type c13Ping struct {
@@ -482,6 +506,8 @@ func (p *c13Run) serverHandler(w *responsewriter.ResponseWriter[*client.Conn], r
 	switch {
 	case strings.HasPrefix(path, "h") || path == "dl":
 		return // acknowledged, never answered
+	case path == "nest":
+		p.nestHandler(w, r)
 	case path == "big":
 		_ = w.SetResponse(codes.Content, message.AppOctets, bytes.NewReader(c13Body(c13BigLen)))
 	case path == "up":
@@ -540,6 +566,18 @@ func newC13Side(name string, mid0 int32, le int, link *c13Link, handler func(sid
 			})
 		}
 	}
+	if activeTracker == nil {
+		// a panic on the receive path (e.g. Unlock of a per-ID lock entry that is gone) is an observable
+		// of the history, not a crash of hx
+		cfg.ProcessReceivedMessage = func(req *pool.Message, cc *client.Conn, handler config.HandlerFunc[*client.Conn]) {
+			defer func() {
+				if r := recover(); r != nil {
+					s.note(fmt.Sprintf("panic on the receive path: %v", r))
+				}
+			}()
+			cc.ProcessReceivedMessageWithHandler(req, handler)
+		}
+	}
 	cfg.GetMID = func() int32 { return mid0 }
 	cfg.GetToken = getTok
 	cfg.Errors = func(error) {
@@ -576,7 +614,7 @@ func newC13Side(name string, mid0 int32, le int, link *c13Link, handler func(sid
 
 func newC13Run(le int) *c13Run {
 	p := &c13Run{le: le, hangs: map[int]*c13Hang{}, inUse: map[int]int{}, queue: map[int][]int{}, pings: map[int]func(){},
-		pingSt: map[int]*c13Ping{}, obsTok: map[string][]byte{}, dbg: os.Getenv("HXDBG") != ""}
+		pingSt: map[int]*c13Ping{}, obsTok: map[string][]byte{}, dbg: os.Getenv("HXDBG") != "", contMid: map[int]bool{}}
 	p.ab, p.ba = newC13Link(), newC13Link()
 	getTok := func() (message.Token, error) { t, _ := p.newTok(); return t, nil }
 	p.a = newC13Side("A", 32767+100, le, p.ab, func(*c13Side) client.HandlerFunc {
@@ -651,9 +689,26 @@ func (p *c13Run) endStepK(tag string, idle bool, closing bool, swept bool) {
 	for _, x := range p.a.takeIn() {
 		p.ev(true, fmt.Sprintf("EIn %d %d %d false", x.typ, x.code, x.mid))
 	}
+	first := map[int]bool{}
 	for _, x := range p.b.takeIn() {
 		ans := (x.typ == 0 || x.typ == 1) && x.code >= 1 && x.code <= 4
+		if p.contMid[x.mid] && (x.typ == 0 || x.typ == 1) {
+			// the two copies that contended for the per-ID lock (opNest) are one event of the model
+			if !first[x.mid] {
+				first[x.mid] = true
+				continue
+			}
+			delete(p.contMid, x.mid)
+			delete(first, x.mid)
+			p.ev(false, fmt.Sprintf("EInCont %d %d %d %s", x.typ, x.code, x.mid, coqBool(ans)))
+			continue
+		}
 		p.ev(false, fmt.Sprintf("EIn %d %d %d %s", x.typ, x.code, x.mid, coqBool(ans)))
+	}
+	for mid := range first {
+		// the copy never made it: the first one alone
+		delete(p.contMid, mid)
+		p.ev(false, fmt.Sprintf("EIn 0 1 %d true", mid))
 	}
 	sa, sb := p.a.sizes(), p.b.sizes()
 	live := 0
@@ -718,9 +773,10 @@ const (
 	kDrop
 	kUpD
 	kH0
+	kNest = kH0 + 3
 )
 
-var c13Paths = map[int]string{kGet: "a", kBig: "big", kUp: "up", kUpBig: "upbig", kObs: "obs", kNoObs: "noobs", kNf: "nf", kBad: "bad", kDl: "dl", kDrop: "d0", kUpD: "d1", kH0: "h0", kH0 + 1: "h1", kH0 + 2: "h2"}
+var c13Paths = map[int]string{kGet: "a", kBig: "big", kUp: "up", kUpBig: "upbig", kObs: "obs", kNoObs: "noobs", kNf: "nf", kBad: "bad", kDl: "dl", kDrop: "d0", kUpD: "d1", kH0: "h0", kH0 + 1: "h1", kH0 + 2: "h2", kNest: "nest"}
 
 // limiter events of a request that finds its endpoint free
 func (p *c13Run) limIn(k int) int {
@@ -1219,6 +1275,17 @@ func (p *c13Run) opOneway(dup bool) {
 // returns an error for every copy the tick retransmits)
 func (p *c13Run) opTick(ms int64, far bool, down bool) {
 	p.settle()
+	for _, s := range []*c13Side{p.a, p.b} {
+		if s.midHasNil() {
+			// a message ID that holds a nil element: the tick would dereference it inside Range's callback,
+			// which is fatal for the process; the history stops here, the tables read so far are reported
+			p.flags = append(p.flags, "nil element in the message-ID table of "+s.name)
+			p.hung = true
+		}
+	}
+	if p.hung {
+		return
+	}
 	p.ab.mu.Lock()
 	p.ab.silent = true
 	p.ab.fail = down
@@ -1388,6 +1455,8 @@ func (p *c13Run) applyOne(op string) {
 		p.ab.setFail(false)
 	case "pingfail":
 		p.opPingFail(arg(1))
+	case "nest":
+		p.opNest()
 	}
 	if dup {
 		p.settle()
@@ -1424,6 +1493,9 @@ func (p *c13Run) finish() {
 			ms = c13FarMs
 		}
 		p.opTick(ms, true, p.downAtClose)
+		if p.hung {
+			return
+		}
 		if i == 0 {
 			// every deadline has passed and ONE tick has run: caches and block-wise buffers must be empty now
 			p.endStepK("close-1", true, false, true)
@@ -1693,7 +1765,7 @@ func sortInts(xs []int) { sort.Ints(xs) }
 func runC13(a runArgs) error {
 	e := NewEmitter("C13", "Conn.Run")
 	e.ShardSize = 40
-	e.Rule = "A case is one history of exchange-level operations on a back-to-back pair of real udp/client.Conn (plain, block-wise up/down, observe + notifications + cancel, ping, one-way; ending by success, silence+cancel, deadline, reset, malformed block, duplicate token, queued in the limiter then cancelled; duplicates per direction), all 11 table sizes of both connections read after every operation, after cancelling what still hangs, and after ageing + MAX_RETRANSMIT+1 far ticks. distinct = distinct descriptor; non-trivial = at least one operation that does not end by plain success."
+	e.Rule = "A case is one history of exchange-level operations on a back-to-back pair of real udp/client.Conn (plain, block-wise up/down, observe + notifications + cancel, ping, one-way; ending by success, silence+cancel, deadline, reset, malformed block, duplicate token, queued in the limiter then cancelled; duplicates per direction), all 11 table sizes of both connections read after every operation, after cancelling what still hangs, and after ageing + MAX_RETRANSMIT+1 far ticks. distinct = distinct descriptor; non-trivial = at least one operation that does not end by plain success (nest = a copy of a request contending for the per-ID lock counts). Sweep: one pkg/cache.Cache swept once; non-trivial = some but not all entries expired, or more than 32. Locks: a Lock/TryLock/Unlock script on one real MutexMap, entries + reference counts + goroutine states after every call; non-trivial = some call finds its key taken. MidRace: exchanges with message-ID continuations on one real connection, housekeeping ticks, one of them interrupted between Range's fetch and the callback with exchanges ending/starting there; non-trivial = contains an interrupted tick."
 	rng := NewRng(a.seed)
 	add := func(le int, ops []string, bucket string) {
 		coq, ok, bad := runC13History(le, ops)
@@ -1735,7 +1807,44 @@ func runC13(a runArgs) error {
 		}
 		e.AddW(coq, d, xx > 0 && xx < nn || xx > 32, 1+nn/25, hb...)
 	}
+	addLocks := func(d string) {
+		coq, _ := runC13Locks(d)
+		_, cmds := c13LocksParse(d)
+		nt, hb := false, []string{"locks"}
+		holders := map[string]bool{}
+		for _, c := range cmds {
+			hb = append(hb, "locks:"+c[:1])
+			// contended: a second Lock / TryLock on a key of the script (approximation for the histogram)
+			if i := strings.Index(c, ":"); i > 0 && c[0] != 'U' {
+				if holders[c[i+1:]] {
+					nt = true
+				}
+				holders[c[i+1:]] = true
+			}
+		}
+		e.AddW(coq, d, nt, 1+len(cmds)/8, hb...)
+	}
+	addRace := func(d string) {
+		coq, _ := runC13MidRace(d)
+		hb := []string{"midrace"}
+		for _, c := range strings.Fields(d) {
+			if strings.HasPrefix(c, "x:") {
+				for _, m := range strings.Split(c[strings.LastIndex(c, ":")+1:], ",") {
+					hb = append(hb, "midrace:in-tick:"+m[:1])
+				}
+			}
+		}
+		e.AddW(coq, d, strings.Contains(d, "x:"), 1, hb...)
+	}
 	if a.only != "" {
+		if strings.HasPrefix(a.only, "locks ") {
+			addLocks(a.only)
+			return e.Flush(a.out)
+		}
+		if strings.HasPrefix(a.only, "midrace|") {
+			addRace(a.only)
+			return e.Flush(a.out)
+		}
 		if strings.HasPrefix(a.only, "sweep ") {
 			n, x, z, salt := c13SweepParse(a.only)
 			addSweep(n, x, z, salt)
@@ -1765,6 +1874,8 @@ func runC13(a runArgs) error {
 		{"getfail"}, {"pingfail:1"}, {"getfail", "get", "pingfail:1", "ping"},
 		// more entries than one tick used to handle: cached replies, reassembly and send buffers
 		{"40*get"}, {"34*upab:1"}, {"34*downab:1"}, {"20*get", "tick:300", "20*get", "tick:100", "35*Dget"},
+		// a retransmitted copy reaches handleReq while the handler of the first copy is busy in a nested exchange
+		{"nest"}, {"nest", "nest", "get"}, {"hack:1:0", "nest", "tick:100", "nest", "cancel:1"},
 	}
 	for _, le := range []int{1, 0} {
 		for _, ops := range fixed {
@@ -1794,7 +1905,46 @@ func runC13(a runArgs) error {
 	}
 	for i := 0; i < n; i++ {
 		le, ops := genC13History(rng.Fork(), 4+rng.Intn(14))
+		// (genC13History is shared with C12: the contended duplicates are inserted here)
+		if r2 := rng.Fork(); r2.Chance(30) {
+			for j := 1 + r2.Intn(2); j > 0; j-- {
+				at := r2.Intn(len(ops) + 1)
+				ops = append(ops[:at], append([]string{"nest"}, ops[at:]...)...)
+			}
+		}
 		add(le, ops, "random")
+	}
+	// the per-ID lock map on its own: Lock / TryLock / Unlock scripts of 2-4 goroutines
+	for _, d := range []string{
+		"locks n=2|T0:7 T1:7 U0", "locks n=2|T0:7 T1:7 L1:7 U0 U1", "locks n=2|T0:7 U0 T1:7 U1 L0:7 U0",
+		"locks n=3|L0:7 L1:7 L2:7 U0", "locks n=3|T0:7 T1:7 T2:7 T1:8 L2:7 U0 T0:7 U1", "locks n=3|L0:1 T1:1 T2:1 L1:1 U0 T2:1 U1 T2:1",
+		"locks n=4|T0:7 L1:7 T2:7 L3:7 T2:7 U0 T2:7", "locks n=2|L0:7 T1:7 T1:7 T1:7 U0 T1:7",
+	} {
+		addLocks(d)
+	}
+	nl := 25
+	if a.tier == "thorough" {
+		nl = 300
+	}
+	for i := 0; i < nl; i++ {
+		addLocks(genC13Locks(rng.Fork()))
+	}
+	// message-ID continuations: exchanges ending / starting while a housekeeping tick holds an entry
+	for _, d := range []string{
+		"midrace|s:1:S t", "midrace|s:1:S x:0:a.1", "midrace|s:1:S x:0:c.1", "midrace|s:1:S x:0:r.1", "midrace|s:1:N x:0:a.1",
+		"midrace|p:1 t t x:0:a.1", "midrace|p:1 t t x:0:c.1", "midrace|p:1 t t t", "midrace|s:1:L t t x:0:a.1", "midrace|s:1:L t t x:0:c.1",
+		"midrace|s:1:S s:2:S s:3:S x:0:a.1,a.2,a.3", "midrace|s:1:S s:2:S s:3:S x:1:c.1,c.2,c.3", "midrace|s:1:S s:2:L x:1:c.1,c.2",
+		"midrace|s:1:S s:2:L x:0:a.2", "midrace|s:1:S x:3:a.1", "midrace|s:1:S x:0:a.1,s.2.L.101", "midrace|s:1:S s:2:S x:0:c.1,c.2,s.3.N.101,s.4.L.102 t",
+		"midrace|s:1:S s:2:L p:3 t x:0:a.1,a.2,a.3 t", "midrace|s:1:L s:2:L x:0:a.1 a:2 s:3:S:101 t",
+	} {
+		addRace(d)
+	}
+	nr := 30
+	if a.tier == "thorough" {
+		nr = 400
+	}
+	for i := 0; i < nr; i++ {
+		addRace(strings.Replace(genC13MidRace(rng.Fork()), "midrace ", "midrace|", 1))
 	}
 	return e.Flush(a.out)
 }
